@@ -40,8 +40,57 @@ pub struct BoolKey {
     pub m: BTreeMap<bool, u8>,
 }
 
+/// Parameter values of unusual serde shapes (whatever a message carries, it goes out as one JSON document): externally
+/// tagged enum variants of every kind incl. the empty struct variant and one whose fields are all skipped, empty
+/// containers, nested options, unit structs, tuples.
+#[derive(Clone, Debug, serde::Serialize)]
+pub enum Odd {
+    Unit,
+    EmptyStruct {},
+    Skipped {
+        #[serde(skip_serializing_if = "Option::is_none")]
+        a: Option<u32>,
+        #[serde(skip_serializing_if = "Option::is_none")]
+        b: Option<String>,
+    },
+    EmptyTuple(),
+    New(u8),
+    Tup(u8, bool),
+    Seq(Vec<u8>),
+    Map(BTreeMap<String, Vec<()>>),
+    Nested(Option<Option<()>>, (), [u8; 0]),
+}
+#[derive(Clone, Debug, serde::Serialize)]
+pub struct OddP {
+    pub pad: String,
+    pub odd: Vec<Odd>,
+}
+pub fn odd_values(k: u8, pad: &str) -> OddP {
+    let all = vec![
+        Odd::Unit,
+        Odd::EmptyStruct {},
+        Odd::Skipped { a: None, b: None },
+        Odd::Skipped { a: Some(1), b: None },
+        Odd::EmptyTuple(),
+        Odd::New(7),
+        Odd::Tup(1, true),
+        Odd::Seq(vec![]),
+        Odd::Seq(vec![1, 2]),
+        Odd::Map(BTreeMap::new()),
+        Odd::Map([("k".to_string(), vec![(), ()])].into_iter().collect()),
+        Odd::Nested(Some(None), (), []),
+        Odd::Nested(None, (), []),
+    ];
+    let n = all.len();
+    // k picks a window of 1..3 consecutive values
+    let start = k as usize % n;
+    let len = 1 + (k as usize / n) % 3;
+    OddP { pad: pad.to_string(), odd: (0..len).map(|i| all[(start + i) % n].clone()).collect() }
+}
+
 #[derive(Clone, Debug)]
 pub enum Msg {
+    ReplyOdd { k: u8, pad: String },
     CallA { v: String, oneway: bool, more: bool },
     CallB,
     ReplyP1 { name: String, continues: Option<bool> },
@@ -102,6 +151,7 @@ impl Msg {
                 (true, serde_json::to_vec(&r).unwrap())
             }
             Msg::ReplyUnit => (true, serde_json::to_vec(&Reply::<()>::new(None)).unwrap()),
+            Msg::ReplyOdd { k, pad } => (true, serde_json::to_vec(&Reply::new(Some(odd_values(*k, pad)))).unwrap()),
             Msg::ErrorZ { code } => (true, serde_json::to_vec(&E1::Z { code: *code }).unwrap()),
             Msg::ErrorY => (true, serde_json::to_vec(&E1::Y).unwrap()),
             Msg::FailAfter { pad } => (false, format!("{{\"pad\":\"{pad}\",\"bad\":").into_bytes()),
@@ -135,6 +185,7 @@ async fn do_send(conn: &mut Connection<SSocket>, m: &Msg, enqueue_only: bool) ->
             res_tok(conn.send_reply(&r).await)
         }
         Msg::ReplyUnit => res_tok(conn.send_reply(&Reply::<()>::new(None)).await),
+        Msg::ReplyOdd { k, pad } => res_tok(conn.send_reply(&Reply::new(Some(odd_values(*k, pad)))).await),
         Msg::ErrorZ { code } => res_tok(conn.send_error(&E1::Z { code: *code }).await),
         Msg::ErrorY => res_tok(conn.send_error(&E1::Y).await),
         Msg::FailAfter { pad } => {
@@ -264,6 +315,7 @@ fn gen_msg(rng: &mut Rng, call_only: bool, maxlen: usize) -> Msg {
         0 | 1 => Msg::CallA { v: text_str(n, rng), oneway: rng.chance(1, 4), more: rng.chance(1, 4) },
         2 => Msg::CallB,
         3 | 4 => Msg::ReplyP1 { name: text_str(n, rng), continues: *rng.pick(&[None, Some(true), Some(false)]) },
+        5 if rng.chance(1, 2) => Msg::ReplyOdd { k: rng.below(39) as u8, pad: pad_str(n.min(300), rng) },
         5 => Msg::ReplyUnit,
         6 => Msg::ErrorZ { code: rng.below(100000) as i32 - 500 },
         7 => Msg::ErrorY,
